@@ -244,6 +244,8 @@ OneResult runOne(RK kind, const Delivery& d, const std::string& wire, Transcript
       t->s(r.code);
       t->u(valueHash(r.walk));
     }
+    sketch("states", hashStr(r.code, valueHash(r.walk)));
+    sketch("documents_after_call", rep.stateHash);
     if (d.checkReuse) {
       // cleared: everything returns; reusable: works normally
       doc->clear();
@@ -845,6 +847,7 @@ void opStream(const Op& op, Ctx& cx) {
                                          ", the document ends at " + std::to_string(pc.end) +
                                          (pc.number ? " (+1 allowed for a number)" : "") + "; wire " + hexdump(wire, 120));
         tr.push_back(std::string(err.c_str()) + "/" + toText(got) + "/" + std::to_string(pos));
+        sketch("states", hashStr(tr.back(), j));
       }
       if (variant == 0 && tailA.empty()) {
         DeserializationError err = mp ? (kind == RK::IStream ? deserializeMsgPack(doc, in)
